@@ -167,11 +167,13 @@ fn gen_cmd(args: &[String]) -> i32 {
         }
         Some("streamfiles") => {
             // lengths (and as-built inflate thresholds) of the real files behind MCTransport
-            let names = ["npy_ok", "npy_midvalue", "npy_short", "npy_header_cut", "vcf", "vcf_gz", "bcf_raw", "bcf_gz", "empty", "w_text", "w_npy", "big_vcf", "big_vcf_gz", "big_bcf_gz", "vcf_gz_cut", "bcf_gz_cut", "bcf_raw_cut"];
+            let names = ["npy_ok", "npy_midvalue", "npy_short", "npy_header_cut", "vcf", "vcf_gz", "bcf_raw", "bcf_gz", "empty", "w_text", "w_npy", "big_vcf", "big_vcf_gz", "big_bcf_gz", "vcf_gz_cut", "bcf_gz_cut", "bcf_raw_cut",
+                "ps_text_small", "ps_npy_small", "ps_text_big", "ps_npy_big", "pp_text_small", "pp_npy_small", "pp_text_big", "pp_npy_big"];
             let v: Vec<Value> = names.iter().map(|n| {
                 let b = fam_stream::stream_file(n);
                 let gz = b.starts_with(&[0x1f, 0x8b]);
-                json!({"name": n, "len": b.len(), "gz": gz, "need": if gz { fam_stream::inflate_need(&b) } else { 3 }})
+                json!({"name": n, "len": b.len(), "gz": gz, "need": if gz { fam_stream::inflate_need(&b) } else { 3 },
+                       "head": b.iter().position(|c| *c == b'\n').map(|i| i + 1).unwrap_or(0)})
             }).collect();
             println!("{}", serde_json::to_string(&v).unwrap());
             0
@@ -181,7 +183,7 @@ fn gen_cmd(args: &[String]) -> i32 {
             let cols: Vec<String> = ["a", "b", "c"].iter().map(|s| s.to_string()).collect();
             let rows = [["0/1", "1/1", "0/0"], ["0/0", "0|1", "./."], ["1/1", "0/1", "1/2"]];
             let recs: Vec<gen::Rec> = rows.iter().enumerate().map(|(i, r)| gen::Rec {
-                contig: "chr1".into(), pos: (i + 1) as u64, bad: false,
+                contig: "chr1".into(), pos: (i + 1) as u64, bad: false, nogt: false,
                 gt: cols.iter().cloned().zip(r.iter().map(|s| s.to_string())).collect(),
             }).collect();
             fs::write(&args[1], gen::own_bcf(&cols, &recs)).expect("write");
